@@ -83,6 +83,7 @@ class Executor(object):
         self.events = []
         self.assume_feasible = False
         self.debug_merge = None
+        self.varsets = {}
         self.pin_consts = False
         self.fp_mode = False
         self.candidates = []
@@ -256,8 +257,34 @@ class Executor(object):
         return self.const(o)
 
     # ---------------------------------------------------------------- feasibility
+    def varset(self, t):
+        k = t.get_id()
+        r = self.varsets.get(k)
+        if r is not None:
+            return r
+        seen = set()
+        out = set()
+        stack = [t]
+        while stack:
+            x = stack.pop()
+            i = x.get_id()
+            if i in seen:
+                continue
+            seen.add(i)
+            if z3.is_const(x) and x.decl().kind() == z3.Z3_OP_UNINTERPRETED:
+                out.add(x.decl().name())
+            else:
+                stack.extend(x.children())
+        r = frozenset(out)
+        self.varsets[k] = r
+        return r
+
     def feasible(self, pc, c):
         if self.assume_feasible:
+            return True
+        # a condition over variables the path condition does not mention cannot be decided by it
+        vc = self.varset(c)
+        if vc and all(vc.isdisjoint(self.varset(x)) for x in pc):
             return True
         key = (tuple(x.get_id() for x in pc), c.get_id())
         r = self.feas_cache.get(key)
@@ -1119,6 +1146,11 @@ class Executor(object):
         if name in ('print', 'println'):
             return None
         raise Unsupported('builtin ' + name)
+
+    def item_names(self, st):
+        sl = st.heap['g:github.com/Trisia/randomness.TestMethodArr']
+        arr = tree_get(st.heap[sl.obj], sl.path)[sl.off:sl.off + sl.len]
+        return [a[0] for a in arr]
 
     # ---------------------------------------------------------------- set-up
     def init_globals(self, st, pkgs):
